@@ -14,6 +14,11 @@ import random
 from lib.kvlib import *
 
 PROP = "C08"
+MANIFEST = dict(
+   level="model_checking", design_ref="DESIGN.md 8 (C08), 7 (Arena)",
+   technique="TLA+ model of the arena/controller/rings (TLC, all interleavings at yield-point granularity) + TLC-generated schedules replayed on the real code through cfg(kira_verif) yield points + TLC trace validation against the property-level monitor P_C08",
+   text="TLC explores every interleaving of the gameplay create path with the audio thread's remove-and-add step for both storage flavours against the property-level monitor (capacity accounting, count, prompt removal, destruction thread, stale ids) and structural invariants; TLC-generated schedules (random, directed witnesses, and the schedule that broke the code before the fix) are forced onto the real library through yield points and every recorded session is validated by TLC against P_C08. Exhaustive for small capacities/item counts, sampled beyond.",
+   note="Trusted: atomic_arena try_reserve/free linearizable for one reserving and one freeing thread; rtrb rings; SeqCst atomics. Racy replays target main-track sounds, clocks and modulators; the other five arenas run the same generic code and are covered by sequential histories. Listener count is not observable through the public API.")
 KINDS = ["sound", "tsound", "subtrack", "nested", "send", "clock", "modulator", "listener"]
 
 
